@@ -108,10 +108,85 @@ __CPROVER_assigns(g_val, ps)''',
     replay=dict(prog='partition_sched', args=[], lib=True, cxxflags=['-fno-access-control'],
                 hook_headers=[('libgalois/include/galois/ParallelSTL.h', 'on_each(P(&s));', 'gv_on_each_hook(P(&s));')])))
 
-EXPLANATION = ('The partition skeleton of ParallelSTL.h: partition_helper_state\'s constructor, takeLow, takeHigh, update (critical sections against a lock invariant with conservation of the range) '
+
+# ---- partial_sum: block bounds, per-block sums, the exclusive scan over the block sums, the add-back pass -------------------------
+import re as _re
+PSW = r'OutputIt partial_sum\(InputIt first, InputIt last, OutputIt d_first\)'
+PSP = """
+#define MAXT 16u                                  /* numBlocks = active threads: configuration bound */
+#define MAXNPS ((size_t)1 << 40)
+size_t sizeOfVector, numBlocks, blockSize;           /* captured by the lambdas */
+uint64_t localSums[MAXT], bulkPrefix[MAXT];
+uint64_t __CPROVER_uninterpreted_dval(size_t k);      /* d_first[k] after the per-block std::partial_sum */
+size_t g_ps_lo, g_ps_hi, g_tr_lo, g_tr_hi; uint64_t g_tr_add; unsigned g_ps_calls, g_tr_calls;     /* ghost: the ranges handed to the std algorithms */
+static inline size_t gv_min_sz(size_t a, size_t b) { return a < b ? a : b; }
+/* std::partial_sum(first + lo, first + hi, d_first + lo) / std::transform(d + lo, d + hi, d + lo, +numToAdd): the standard's algorithms on the given range (trusted); recorded */
+static inline void std_partial_sum_blk(size_t lo, size_t hi) { __CPROVER_assert(lo <= hi && hi <= sizeOfVector, "std::partial_sum: a valid sub-range of the input"); g_ps_lo = lo; g_ps_hi = hi; g_ps_calls++; }
+static inline void std_transform_add(size_t lo, size_t hi, uint64_t add) { __CPROVER_assert(lo <= hi && hi <= sizeOfVector, "std::transform: a valid sub-range of the output"); g_tr_lo = lo; g_tr_hi = hi; g_tr_add = add; g_tr_calls++; }
+#define DVAL(k) __CPROVER_uninterpreted_dval(k)
+/* the block division the code uses: block b is [min(b*bs, n), min((b+1)*bs, n)) */
+#define BLO(b) ((b) * blockSize < sizeOfVector ? (b) * blockSize : sizeOfVector)
+#define PS_SHAPE (numBlocks >= 1 && numBlocks <= MAXT && sizeOfVector >= 1 && sizeOfVector <= MAXNPS && blockSize >= 1 && blockSize <= MAXNPS && numBlocks * blockSize >= sizeOfVector && (numBlocks - 1) * blockSize <= sizeOfVector + numBlocks * MAXT)
+"""
+PS_L1 = [stdfn('std::min', 'gv_min_sz', 2), rx(r'assert\(blockStart <= blockEnd\);', '__CPROVER_assert(blockStart <= blockEnd, "code-assert: blockStart <= blockEnd");', 1, 1),
+         rx(r'std::partial_sum\(first \+ blockStart, first \+ blockEnd,\s*d_first \+ blockStart\);', 'std_partial_sum_blk(blockStart, blockEnd);', 1, 1),
+         rx(r'\*\(d_first \+ blockEnd - 1\)', 'DVAL(blockEnd - 1)', 1, 1)]
+UNITS.append(Unit(
+    name='PS_block_sums', src=PSTL, within=PSW, anchor=r'\[&\]\(const size_t& block\)', occurrence=0, of=2, proto='void PS_block_sums(size_t block)',
+    contract="""__CPROVER_requires(PS_SHAPE && block < numBlocks && g_ps_calls == 0)
+/* exactly one std::partial_sum, on exactly this block's range; the block's last running sum is saved */
+__CPROVER_ensures(g_ps_calls == 1 && g_ps_lo == BLO(block) && g_ps_hi == BLO(block + 1) && g_ps_lo <= g_ps_hi)
+__CPROVER_ensures(localSums[block] == (BLO(block + 1) > 0 ? DVAL(BLO(block + 1) - 1) : 0))
+__CPROVER_assigns(localSums[block], g_ps_lo, g_ps_hi, g_ps_calls)""",
+    prelude=[PSP], lower=PS_L1, no_flags=['--conversion-check'], inst='ValueType = uint64_t, random-access iterators as indices',
+    says='partial_sum, first pass, one block: the standard partial_sum runs on exactly [min(b*bs,n), min((b+1)*bs,n)) and the block\'s last running sum is recorded; the code\'s assertion holds'))
+UNITS.append(Unit(
+    name='PS_block_add', src=PSTL, within=PSW, anchor=r'\[&\]\(const size_t& block\)', occurrence=1, of=2, proto='void PS_block_add(size_t block)',
+    contract="""__CPROVER_requires(PS_SHAPE && block < numBlocks && g_tr_calls == 0)
+__CPROVER_ensures(g_tr_calls == 1 && g_tr_lo == BLO(block) && g_tr_hi == BLO(block + 1) && g_tr_add == bulkPrefix[block])
+__CPROVER_assigns(g_tr_lo, g_tr_hi, g_tr_add, g_tr_calls)""",
+    prelude=[PSP], lower=[stdfn('std::min', 'gv_min_sz', 2), rx(r'assert\(blockStart <= blockEnd\);', '__CPROVER_assert(blockStart <= blockEnd, "code-assert: blockStart <= blockEnd");', 1, 1), rx(r'ValueType numToAdd', 'uint64_t numToAdd', 1, 1),
+           rx(r'std::transform\(d_first \+ blockStart, d_first \+ blockEnd,\s*d_first \+ blockStart,\s*\[&\]\(ValueType& val\) \{ return val \+ numToAdd; \}\);', 'std_transform_add(blockStart, blockEnd, numToAdd);', 1, 1, flags=_re.S)],
+    no_flags=['--conversion-check'], inst='ValueType = uint64_t',
+    says='partial_sum, second pass, one block: the block\'s offset bulkPrefix[b] is added to exactly the block\'s range'))
+UNITS.append(Unit(
+    name='lemma_ps_blocks', kind='lemma', prelude=[PSP],
+    harness="""
+  size_t b; __CPROVER_assume(PS_SHAPE && b < numBlocks - 1);
+  __CPROVER_assert(BLO(0) == 0, "the first block starts at 0");
+  __CPROVER_assert(BLO(numBlocks) == sizeOfVector, "the last block ends at n (numBlocks * blockSize >= n)");
+  __CPROVER_assert(BLO(b) <= BLO(b + 1) && BLO(b + 1) <= BLO(b + 2), "consecutive blocks are ordered and share their boundary (block b ends where block b+1 starts, by definition)");
+""",
+    says='the blocks [BLO(b), BLO(b+1)) for b = 0..numBlocks-1 are ordered, adjacent, start at 0 and end at n: they partition the input'))
+UNITS.append(Unit(
+    name='PS_blocksize', src=PSTL, anchor=PSW, proto='size_t PS_blocksize(void)',
+    contract="""__CPROVER_requires(numBlocks >= 1 && numBlocks <= MAXT && sizeOfVector >= 1 && sizeOfVector <= MAXNPS)
+__CPROVER_ensures(__CPROVER_return_value >= 1 && numBlocks * __CPROVER_return_value >= sizeOfVector && (__CPROVER_return_value - 1) * numBlocks < sizeOfVector)
+__CPROVER_assigns()""",
+    prelude=[PSP.replace('size_t sizeOfVector, numBlocks, blockSize;', 'size_t sizeOfVector, numBlocks;')],
+    lower=[rx(r'\A.*?(const size_t blockSize = \(sizeOfVector \+ numBlocks - 1\) / numBlocks;\s*assert\(numBlocks \* blockSize >= sizeOfVector\);).*\Z', r'\1 return blockSize;', 1, 1, flags=_re.S),
+           rx(r'assert\(numBlocks \* blockSize >= sizeOfVector\);', '__CPROVER_assert(numBlocks * blockSize >= sizeOfVector, "code-assert: numBlocks * blockSize >= sizeOfVector");', 1, 1)],
+    no_flags=['--conversion-check'], timeout=600, inst='numBlocks <= 16',
+    says='the block size is ceil(n / numBlocks): numBlocks blocks of that size cover the input (the code\'s own assertion) and no smaller size would',
+    trusted=['S-slice: only the block-size computation and its assertion are taken from the function body']))
+UNITS.append(Unit(
+    name='PS_scan', src=PSTL, anchor=PSW, proto='void PS_scan(void)',
+    contract="""__CPROVER_requires(numBlocks >= 1 && numBlocks <= MAXT && g_b < MAXT)
+/* ghost: g_pre[i] = sum of localSums[0..i) (64-bit wrap-around arithmetic, as the code) */
+__CPROVER_requires(g_pre[0] == 0 && __CPROVER_forall { unsigned q; (q < MAXT) ==> g_pre[q + 1] == g_pre[q] + localSums[q] })
+__CPROVER_ensures(g_b < numBlocks ==> bulkPrefix[g_b] == g_pre[g_b])
+__CPROVER_assigns(__CPROVER_object_whole(bulkPrefix))""",
+    prelude=[PSP, 'uint64_t g_pre[MAXT + 1]; unsigned g_b;   /* ghost prefix sums / probe block */\n'],
+    lower=[rx(r'\A.*?(ValueType runningSum = 0;\s*for \(size_t i = 0; i < numBlocks; i\+\+\) \{.*?\n    \}).*\Z', r'\1', 1, 1, flags=_re.S), rx(r'ValueType runningSum', 'uint64_t runningSum', 1, 1)],
+    loops={1: '__CPROVER_assigns(i, runningSum, __CPROVER_object_whole(bulkPrefix))\n__CPROVER_loop_invariant(i <= numBlocks && numBlocks <= MAXT && runningSum == g_pre[i] && (g_b < i ==> bulkPrefix[g_b] == g_pre[g_b]))\n__CPROVER_decreases(numBlocks - i)'},
+    fallback_unwind=18, no_flags=['--conversion-check'], inst='ValueType = uint64_t, numBlocks <= 16',
+    says='the exclusive scan over the block sums: bulkPrefix[b] = sum of the block sums before b, for an arbitrary block',
+    trusted=['S-slice: only the scan loop is taken from the function body']))
+
+EXPLANATION = ('partial_sum: the block size (ceil(n/numBlocks), the code\'s assertion), the two per-block passes (the std algorithms run on exactly the block\'s range; the block sum recorded; the offset added), the exclusive scan over the block sums, and a lemma that the blocks partition the input.  The partition skeleton of ParallelSTL.h: partition_helper_state\'s constructor, takeLow, takeHigh, update (critical sections against a lock invariant with conservation of the range) '
                'and the sequential tail of partition() are extracted from /repo, lowered to C and proved; the value returned by partition() is a valid partition point for an arbitrary probe element '
                'in the perfect case, with leftovers on one side and with leftovers on both sides, and std::partition is only ever handed a valid range.')
-NOT_DECIDED = ('dual_partition (block-local swapping loops), the parallel phase itself (assumed contract on_each_abs, justified by the proved step contracts), multiset/permutation preservation, '
+NOT_DECIDED = ('partial_sum: the composition "result == std::partial_sum" (per-pass facts are proved, std::partial_sum/std::transform and do_all are trusted, the sum of the pieces is a hand-made step); dual_partition (block-local swapping loops), the parallel phase itself (assumed contract on_each_abs, justified by the proved step contracts), multiset/permutation preservation, '
                'sort, count_if, find_if, accumulate, map_reduce, partial_sum, destroy; the std:: algorithms themselves.')
 ASSUMPTIONS = ['on_each_abs: what the parallel phase establishes (all blocks handed out; lock invariant; blocks not reported as leftover are fully partitioned)',
                'std::partition by the standard\'s contract (stub std_partition)',
